@@ -12,6 +12,7 @@ matrix size `n`, every capacity `cap` (the validity predicate demands
 `SIZE_CHECK(size <= m_maxSize)`; "minimum admissible capacity").
 -/
 import SharkVerif.Lemmas.CachedMatrix
+import SharkVerif.Model.KernelMatrices
 namespace SharkVerif.C09
 open SharkVerif.Cache
 
@@ -259,3 +260,164 @@ theorem two_recent_rows_evicted_when_too_small :
     m.cache.lru = [1, 0] ∧ (m.row 2 0 2).cache.lines 0 = [] := by decide
 
 end SharkVerif.C09
+
+/-! ## Wrapper matrices agree entry-wise with direct kernel evaluation
+
+For every history of variable flips, each wrapper's `entry`/`row` equals the
+defining formula evaluated directly on the kernel `k` at the *original* indices
+`π a`, `π b`, where `π` is the composition of the transpositions performed so
+far. -/
+namespace SharkVerif.C09.Wrappers
+open SharkVerif.Cache (swapIdx)
+open SharkVerif.KM
+
+/-- the permutation accumulated by a history of flips (first flip innermost) -/
+def permOf : List (Nat × Nat) → Nat → Nat
+  | [] => id
+  | (i, j) :: fs => fun a => swapIdx i j (permOf fs a)
+
+/-- apply flips in history order -/
+def flips {W : Type} (flip : W → Nat → Nat → W) (w : W) (fs : List (Nat × Nat)) : W :=
+  fs.foldl (fun w p => flip w p.1 p.2) w
+
+/-- generic lifting: a one-step equivariance law gives the law for all histories -/
+theorem entry_flips {W V : Type} (entry : W → Nat → Nat → V) (flip : W → Nat → Nat → W)
+    (h1 : ∀ w i j a b, entry (flip w i j) a b = entry w (swapIdx i j a) (swapIdx i j b)) :
+    ∀ (fs : List (Nat × Nat)) (w : W) (a b : Nat),
+      entry (flips flip w fs) a b = entry w (permOf fs a) (permOf fs b) := by
+  intro fs
+  induction fs with
+  | nil => intro w a b; rfl
+  | cons p fs ih =>
+    intro w a b
+    obtain ⟨i, j⟩ := p
+    show entry (flips flip (flip w i j) fs) a b = _
+    rw [ih, h1]
+    rfl
+
+variable {V : Type}
+
+/-- `KernelMatrix`: after any flips, `entry a b = k (π a) (π b)` -/
+theorem kernel_entry_true (k : Nat → Nat → V) (fs : List (Nat × Nat)) (a b : Nat) :
+    (flips Kernel.flip (Kernel.init k) fs).entry a b = k (permOf fs a) (permOf fs b) := by
+  rw [entry_flips Kernel.entry Kernel.flip (fun _ _ _ _ _ => rfl)]
+  rfl
+
+/-- the aux vector swapped alongside follows the same permutation -/
+theorem regularized_diag_after_flips [Add V] :
+    ∀ (fs : List (Nat × Nat)) (m : Regularized V) (a : Nat),
+      (flips Regularized.flip m fs).diag a = m.diag (permOf fs a) ∧
+      (flips Regularized.flip m fs).base.x a = m.base.x (permOf fs a) ∧
+      (flips Regularized.flip m fs).base.k = m.base.k := by
+  intro fs
+  induction fs with
+  | nil => intro m a; exact ⟨rfl, rfl, rfl⟩
+  | cons p fs ih =>
+    intro m a
+    obtain ⟨i, j⟩ := p
+    have := ih (m.flip i j) a
+    exact ⟨this.1, this.2.1, this.2.2⟩
+
+/-- `RegularizedKernelMatrix`: `entry a b = k (π a) (π b) + [a = b]·diag₀ (π a)` after any flips -/
+theorem regularized_entry_true [Add V] (k : Nat → Nat → V) (d : Nat → V) (fs : List (Nat × Nat)) (a b : Nat) :
+    (flips Regularized.flip (Regularized.init k d) fs).entry a b =
+      if a = b then k (permOf fs a) (permOf fs b) + d (permOf fs a) else k (permOf fs a) (permOf fs b) := by
+  have h := regularized_diag_after_flips fs (Regularized.init k d)
+  simp only [Regularized.entry, Kernel.entry]
+  rw [(h a).1, (h a).2.1, (h b).2.1, (h a).2.2]
+  rfl
+
+/-- its `row` (separate code path: base row, then one in-place addition) equals the entries -/
+theorem regularized_row_eq_entries [Add V] (m : Regularized V) (r start stop : Nat) :
+    m.row r start stop = (List.range (stop - start)).map fun t => m.entry r (start + t) := by
+  apply List.ext_getElem?
+  intro t
+  simp only [Regularized.row, Kernel.row]
+  by_cases ht : t < stop - start
+  · rw [List.getElem?_map, List.getElem?_range ht]
+    simp only [Option.map_some]
+    split
+    · rename_i hk
+      by_cases e : t = r - start
+      · subst e
+        rw [List.getElem?_set_self (by simp; omega)]
+        simp only [Regularized.entry]
+        have : start + (r - start) = r := by omega
+        rw [this]
+        simp only [↓reduceIte]
+        congr 2
+        rw [List.getD_eq_getElem?_getD, List.getElem?_map, List.getElem?_range (by omega)]
+        simp [this]
+      · rw [List.getElem?_set_ne (Ne.symm e), List.getElem?_map, List.getElem?_range ht]
+        simp only [Option.map_some, Regularized.entry]
+        have : r ≠ start + t := by omega
+        simp [this]
+    · rename_i hk
+      rw [List.getElem?_map, List.getElem?_range ht]
+      simp only [Option.map_some, Regularized.entry]
+      have : r ≠ start + t := by omega
+      simp [this]
+  · have h1 : ((List.range (stop - start)).map fun t => m.entry r (start + t))[t]? = none := by
+      simp; omega
+    rw [h1]
+    split <;> simp <;> omega
+
+theorem modified_after_flips [Mul V] :
+    ∀ (fs : List (Nat × Nat)) (m : Modified V) (a : Nat),
+      (flips Modified.flip m fs).labels a = m.labels (permOf fs a) ∧
+      (flips Modified.flip m fs).base.x a = m.base.x (permOf fs a) ∧
+      (flips Modified.flip m fs).modEq = m.modEq ∧ (flips Modified.flip m fs).modNe = m.modNe ∧
+      (flips Modified.flip m fs).base.k = m.base.k := by
+  intro fs
+  induction fs with
+  | nil => intro m a; exact ⟨rfl, rfl, rfl, rfl, rfl⟩
+  | cons p fs ih =>
+    intro m a
+    obtain ⟨i, j⟩ := p
+    have := ih (m.flip i j) a
+    exact ⟨this.1, this.2.1, this.2.2.1, this.2.2.2.1, this.2.2.2.2⟩
+
+/-- `ModifiedKernelMatrix`: entries are the kernel value times the factor chosen by
+equality of the *original* labels, after any flips -/
+theorem modified_entry_true [Mul V] (k : Nat → Nat → V) (lab : Nat → Nat) (e n : V)
+    (fs : List (Nat × Nat)) (a b : Nat) :
+    (flips Modified.flip (Modified.init k lab e n) fs).entry a b =
+      (if lab (permOf fs a) = lab (permOf fs b) then e else n) * k (permOf fs a) (permOf fs b) := by
+  have h := modified_after_flips fs (Modified.init k lab e n)
+  simp only [Modified.entry, Modified.modifier, Kernel.entry]
+  rw [(h a).1, (h b).1, (h a).2.1, (h b).2.1, (h a).2.2.1, (h a).2.2.2.1, (h a).2.2.2.2]
+  rfl
+
+/-- `PrecomputedMatrix` built from any base and the base itself stay equal under the same flips -/
+theorem precomputed_entry_true (k : Nat → Nat → V) (fs : List (Nat × Nat)) (a b : Nat) :
+    (flips Precomputed.flip (Precomputed.init (Kernel.init k).entry) fs).entry a b =
+      (flips Kernel.flip (Kernel.init k) fs).entry a b := by
+  rw [kernel_entry_true, entry_flips Precomputed.entry Precomputed.flip (fun _ _ _ _ _ => rfl)]
+  rfl
+
+/-- `BlockMatrix2x2`: entry = base entry at the mapped indices, mapping follows the flips -/
+theorem block2_entry_true (be : Nat → Nat → V) (n : Nat) (fs : List (Nat × Nat)) (a b : Nat) :
+    (flips Block2.flip (Block2.init be n) fs).entry a b =
+      be ((Block2.init be n).mapping (permOf fs a)) ((Block2.init be n).mapping (permOf fs b)) := by
+  rw [entry_flips Block2.entry Block2.flip (fun _ _ _ _ _ => rfl)]
+  rfl
+
+/-- `DifferenceKernelMatrix`: `entry a b = k(g,g') − k(g,s') − k(s,g') + k(s,s')` for the
+pairs originally at `π a`, `π b` -/
+theorem difference_entry_true [Add V] [Sub V] (k : Nat → Nat → V) (pairs : Nat → Nat × Nat)
+    (fs : List (Nat × Nat)) (a b : Nat) :
+    (flips Difference.flip (Difference.init k pairs) fs).entry a b =
+      k (pairs (permOf fs a)).2 (pairs (permOf fs b)).2 - k (pairs (permOf fs a)).2 (pairs (permOf fs b)).1
+        - k (pairs (permOf fs a)).1 (pairs (permOf fs b)).2 + k (pairs (permOf fs a)).1 (pairs (permOf fs b)).1 := by
+  rw [entry_flips Difference.entry Difference.flip (fun _ _ _ _ _ => rfl)]
+  rfl
+
+/-- `PartlyPrecomputedMatrix`: stored rows and on-demand rows both give the base entry -/
+theorem partly_entry_true (be : Nat → Nat → V) (n bytes sz i j : Nat) :
+    (Partly.init be n bytes sz).entry i j = be i j := by
+  simp only [Partly.entry, Partly.init]; exact ite_self _
+
+/-- non-vacuity: a concrete flip history moves entries as stated -/
+example : (flips Kernel.flip (Kernel.init fun a b => a * 10 + b) [(0, 2), (1, 2)]).entry 1 2 = 1 := by decide
+
+end SharkVerif.C09.Wrappers
